@@ -96,6 +96,12 @@ impl ValidationReport {
     pub fn process(
         engine: &Engine, config: &Config, initial: bool,
     ) -> Result<(Self, Metrics), RunFailed> {
+        #[cfg(routinator_verif)]
+        match crate::verif::forced("validation.process") {
+            Some(1) => return Err(RunFailed::retry()),
+            Some(2) => return Err(RunFailed::fatal()),
+            _ => { }
+        }
         let report = Self::new(config);
         let mut run = engine.start(&report, initial)?;
         run.process()?;
